@@ -282,6 +282,8 @@ def run_case(rng, ctx):
         law("sum", F((a + alt) >> b), (Fa >> Fb) + (F(alt) >> Fb))
     if rigid:
         rigid_case(rng, ctx, kit, F, images, image_keys, witness, law)
+        if ctx.index % 4 == 1:
+            monoidal_functor_on_rigid_types(rng, ctx)
     # histories: the SAME functor object after its maps were changed (dicts
     # updated in place / callables reading them): every call uses the maps
     # current at that call
@@ -486,3 +488,107 @@ def cat_case(rng, ctx):
                got=lambda: repr(got)[:1200], **witness)
     if len(a) + len(b) >= 3:
         ctx.mark("cat" + safe_repr(a >> b, 500) + repr(sorted(map(repr, ob.items()))))
+    into_monoidal(rng, ctx, a, b)
+
+
+def into_monoidal(rng, ctx, a, b):
+    """
+    The `ob_factory=` / `ar_factory=` keywords: a functor from plain arrows into
+    monoidal diagrams.  Images are diagrams of that class (also for composites,
+    identities, daggers and slices) and the laws hold there.
+    """
+    cat, mkit = _KITS["cat"].mod, _KITS["monoidal"]
+    m = mkit.mod
+    ob = {cat.Ob(x): mkit.rand_ty(rng, rng.choice([0, 1, 1, 2])) for x in kits.ATOMS}
+    ar = {}
+    for box in a.boxes + b.boxes:
+        base = base_of(box)
+        if base not in ar:
+            img = mkit.rand_diagram(rng, rng.randint(0, 1), dom=ob[base.dom], raw=False)
+            ar[base] = img >> mkit.box_with_dom(rng, img.cod, cod=ob[base.cod])
+    F = cat.Functor(ob, ar, ob_factory=m.Ty, ar_factory=m.Diagram)
+    witness = dict(cls="cat->monoidal", style="ob_factory/ar_factory keywords",
+                   a=lambda: safe_repr(a, 600), b=lambda: safe_repr(b, 400))
+
+    def law(name, lhs, rhs, **extra):
+        try:
+            ok = bool(lhs == rhs) and bool(rhs == lhs)\
+                and isinstance(lhs, m.Diagram) and isinstance(rhs, m.Diagram)
+        except Exception as err:
+            ok, extra = False, dict(extra, eq_raised=type(err).__name__)
+        ctx.expect("law:" + name, ok, lhs=lambda: safe_repr(lhs, 700),
+                   rhs=lambda: safe_repr(rhs, 700),
+                   classes=[type(lhs).__name__, type(rhs).__name__],
+                   **dict(witness, **extra))
+    try:
+        Fa, Fb = F(a), F(b)
+        law("then", F(a >> b), Fa >> Fb)
+        law("identity", F(cat.Id(a.dom)), m.Id(F(a.dom)))
+        law("dagger", F(a[::-1]), Fa[::-1])
+        n = len(a)
+        i = rng.randint(0, n)
+        law("slice", F(a[:i]) >> F(a[i:]), Fa, i=i)
+        for d, Fd in ((a, Fa), (b, Fb)):
+            ok, why = well_typed(Fd)
+            ctx.expect("image-well-typed", ok, reason=why,
+                       image=lambda: safe_repr(Fd), **witness)
+        ctx.count("functors_into_another_category")
+    except Exception as err:
+        ctx.fail("law:then", exception=type(err).__name__, message=str(err)[:300],
+                 **witness)
+
+
+def monoidal_functor_on_rigid_types(rng, ctx):
+    """
+    A monoidal.Functor (not a rigid one) applied to diagrams whose types are
+    rigid: its object map is keyed by the atomic types as they are, winding
+    number included, and is looked up with objects of the diagram's own type
+    class.
+    """
+    from discopy import monoidal
+    rkit, mkit = _KITS["rigid-nostruct"], _KITS["monoidal"]
+    rigid = rkit.mod
+    a = rkit.rand_diagram(rng, rng.randint(1, 4), width=rng.randint(1, 3), raw=False)
+    b = rkit.rand_diagram(rng, rng.randint(0, 3), dom=a.cod, raw=False)
+    atoms = {}
+    for d in (a, b):
+        for ty in [d.dom, d.cod] + [x for box in d.boxes for x in (box.dom, box.cod)]:
+            for ob_ in ty.objects:
+                atoms[rigid.Ty(ob_)] = None
+    for t in atoms:
+        atoms[t] = mkit.rand_ty(rng, rng.choice([0, 1, 1, 2]))
+
+    def image(ty):
+        out = monoidal.Ty()
+        for ob_ in ty.objects:
+            out = out @ atoms[rigid.Ty(ob_)]
+        return out
+    ar = {}
+    for box in a.boxes + b.boxes:
+        base = base_of(box)
+        if base not in ar:
+            img = mkit.rand_diagram(rng, rng.randint(0, 1), dom=image(base.dom),
+                                    raw=False)
+            ar[base] = img >> mkit.box_with_dom(rng, img.cod, cod=image(base.cod))
+    style = rng.choice(["dict", "callable"])
+    F = monoidal.Functor(atoms, ar) if style == "dict"\
+        else monoidal.Functor(lambda t: atoms[t], lambda f: ar[f])
+    witness = dict(cls="monoidal functor on rigid types", style=style,
+                   a=lambda: safe_repr(a, 600), b=lambda: safe_repr(b, 400))
+    try:
+        Fa, Fb, Fab = F(a), F(b), F(a >> b)
+    except Exception as err:
+        ctx.fail("law:then", exception=type(err).__name__, message=str(err)[:300],
+                 **witness)
+        return
+    ctx.expect("law:dom-cod", tykey(Fa.dom) == tykey(image(a.dom))
+               and tykey(Fa.cod) == tykey(image(a.cod))
+               and tykey(F(a.dom)) == tykey(image(a.dom)),
+               got=lambda: safe_repr((Fa.dom, Fa.cod)), **witness)
+    ctx.expect("law:then", bool(Fab == (Fa >> Fb)), lhs=lambda: safe_repr(Fab, 600),
+               rhs=lambda: safe_repr(Fa >> Fb, 600), **witness)
+    for Fd in (Fa, Fb):
+        ok, why = well_typed(Fd)
+        ctx.expect("image-well-typed", ok, reason=why, image=lambda: safe_repr(Fd),
+                   **witness)
+    ctx.count("monoidal_functors_on_rigid_types")
